@@ -169,5 +169,29 @@ Proof.
   rewrite utf8_valid_ascii_cons by lia. apply IH, H2.
 Qed.
 
+(* every scalar value encodes to valid UTF-8: checked by running over all 0x110000 code points *)
+Fixpoint all_from (fuel : nat) (n : N) (p : N -> bool) : bool :=
+  match fuel with O => true | S f => p n && all_from f (n + 1) p end.
+Lemma all_from_spec (p : N -> bool) (fuel : nat) : forall n, all_from fuel n p = true ->
+  forall c, n <= c -> c < n + N.of_nat fuel -> p c = true.
+Proof.
+  induction fuel as [|f IH]; intros n H c H1 H2; [lia|].
+  cbn [all_from] in H. apply andb_true_iff in H as [Hn Hr].
+  destruct (N.eq_dec c n) as [->|Hne]; [exact Hn|]. apply (IH (n + 1) Hr); lia.
+Qed.
+
+Lemma utf8_encode_valid_all :
+  all_from (N.to_nat 1114112) 0 (fun c => negb (is_scalar c) || utf8_valid (utf8_encode c)) = true.
+Proof. vm_compute. reflexivity. Qed.
+
+Lemma utf8_encode_valid c : is_scalar c = true -> utf8_valid (utf8_encode c) = true.
+Proof.
+  intros H. assert (Hc : c < 1114112) by (unfold is_scalar in H; lia).
+  pose proof (all_from_spec _ _ 0 utf8_encode_valid_all c) as P. cbn beta in P.
+  rewrite H in P. cbn [negb orb] in P. apply P; lia.
+Qed.
+
+
 Print Assumptions utf8_valid_app.
 Print Assumptions utf8_valid_split.
+Print Assumptions utf8_encode_valid.
